@@ -392,12 +392,16 @@ func RunC03(r *sim.Run) {
 				default:
 					continue
 				}
-				if lastProbe == nil || h.DoneAt >= lastProbe.DoneAt {
+				// ordered by start: an endpoint is probed by one loop, one probe at a
+				// time; a probe that started earlier and ended later belongs to an
+				// earlier incarnation of the endpoint (removed and added again) and
+				// cannot touch the current one
+				if lastProbe == nil || h.At >= lastProbe.At {
 					lastProbe = h
 				}
 			}
 			if lastProbe != nil && lastProbe.Outcome != "200" {
-				r.Violate("forwarded_after_failed_probe", lastProbe.Outcome, "request %s was forwarded to %s at %v, but the last health probe of that endpoint that got a verdict ended %v earlier with %q and none has succeeded since", o.ID, o.Endpoint, o.At, o.At-lastProbe.DoneAt, lastProbe.Outcome)
+				r.Violate("forwarded_after_failed_probe", lastProbe.Outcome, "request %s was forwarded to %s at %v, but the latest health probe of that endpoint that got a verdict (started %v, ended %v) ended with %q and none that started later has succeeded", o.ID, o.Endpoint, o.At, lastProbe.At, lastProbe.DoneAt, lastProbe.Outcome)
 				return
 			}
 			r.Checked("forwarded_to_eligible_endpoint")
